@@ -407,38 +407,19 @@ func (b *Reader) Skip(n int) {
 	_, _ = b.buf.Seek(int64(n), io.SeekCurrent)
 }
 
-func (b *Reader) skipFieldMap() error {
-	var length int32
-	err := b.ReadInt32(&length, 0, true)
-	if err != nil {
-		return err
-	}
+// skipPending marks an open struct on the skip stack; other entries (always positive when pushed)
+// count the elements of an enclosing LIST or MAP that are still to be skipped.
+const skipPending int32 = -1
 
-	for i := int32(0); i < length*2; i++ {
-		tyCur, _, err := b.readHead()
-		if err != nil {
-			return err
-		}
-		_ = b.skipField(tyCur)
-	}
-	return nil
-}
-func (b *Reader) skipFieldList() error {
+// skipLen reads the element count of a LIST or MAP that is being skipped.
+func (b *Reader) skipLen() (int32, error) {
 	var length int32
 	err := b.ReadInt32(&length, 0, true)
-	if err != nil {
-		return err
-	}
-	for i := int32(0); i < length; i++ {
-		tyCur, _, err := b.readHead()
-		if err != nil {
-			return err
-		}
-		_ = b.skipField(tyCur)
-	}
-	return nil
+	return length, err
 }
-func (b *Reader) skipFieldSimpleList() error {
+
+// skipSimpleList skips the body of a SimpleList whose head has been read.
+func (b *Reader) skipSimpleList() error {
 	tyCur, _, err := b.readHead()
 	if tyCur != BYTE {
 		return fmt.Errorf("simple list need byte head. but get %d", tyCur)
@@ -456,79 +437,119 @@ func (b *Reader) skipFieldSimpleList() error {
 	return nil
 }
 
+// skipField skips the field of wire type ty whose head has been read. Nested containers are kept
+// on an explicit stack instead of the call stack, so that the nesting depth of the input (which
+// the peer chooses) costs heap proportional to the input and never stack.
 func (b *Reader) skipField(ty byte) error {
-	switch ty {
-	case BYTE:
-		b.Skip(1)
-	case SHORT:
-		b.Skip(2)
-	case INT:
-		b.Skip(4)
-	case LONG:
-		b.Skip(8)
-	case FLOAT:
-		b.Skip(4)
-	case DOUBLE:
-		b.Skip(8)
-	case STRING1:
-		data, err := b.buf.ReadByte()
-		if err != nil {
-			return err
+	return b.skipFields(ty, nil)
+}
+
+// skipFields skips the field of type ty and then everything the stack still asks for: the
+// remaining elements of enclosing LISTs/MAPs (an error inside an element is ignored and the next
+// element is tried, as the recursive version did) and the remaining members of enclosing structs
+// up to their StructEnd (an error ends the struct and is passed outwards).
+func (b *Reader) skipFields(ty byte, stack []int32) error {
+	for {
+		var err error
+		switch ty {
+		case BYTE:
+			b.Skip(1)
+		case SHORT:
+			b.Skip(2)
+		case INT:
+			b.Skip(4)
+		case LONG:
+			b.Skip(8)
+		case FLOAT:
+			b.Skip(4)
+		case DOUBLE:
+			b.Skip(8)
+		case STRING1:
+			var data byte
+			data, err = b.buf.ReadByte()
+			if err == nil {
+				b.Skip(int(data))
+			}
+		case STRING4:
+			var l uint32
+			err = bReadU32(b.buf, &l)
+			if err == nil {
+				b.Skip(int(l))
+			}
+		case MAP:
+			var length int32
+			length, err = b.skipLen()
+			if n := length * 2; err == nil && n > 0 {
+				stack = append(stack, n)
+			}
+		case LIST:
+			var length int32
+			length, err = b.skipLen()
+			if err == nil && length > 0 {
+				stack = append(stack, length)
+			}
+		case SimpleList:
+			err = b.skipSimpleList()
+		case StructBegin:
+			stack = append(stack, skipPending)
+		case StructEnd:
+		case ZeroTag:
+		default:
+			err = fmt.Errorf("invalid type")
 		}
-		l := int(data)
-		b.Skip(l)
-	case STRING4:
-		var l uint32
-		err := bReadU32(b.buf, &l)
-		if err != nil {
-			return err
+
+		// what is to be skipped next
+		for {
+			if err != nil {
+				// the error ends every struct it occurred in; the element loop of an enclosing
+				// LIST/MAP ignores it
+				for len(stack) > 0 && stack[len(stack)-1] == skipPending {
+					stack = stack[:len(stack)-1]
+				}
+				if len(stack) == 0 {
+					return err
+				}
+				err = nil
+			}
+			if len(stack) == 0 {
+				return nil
+			}
+			top := len(stack) - 1
+			if stack[top] == skipPending {
+				tyCur, _, e := b.readHead()
+				if e != nil {
+					err = e
+					continue
+				}
+				ty = tyCur
+				if tyCur == StructEnd {
+					stack = stack[:top]
+					continue
+				}
+				break
+			}
+			if stack[top] <= 0 {
+				stack = stack[:top]
+				continue
+			}
+			stack[top]--
+			tyCur, _, e := b.readHead()
+			if e != nil {
+				// the LIST/MAP itself fails
+				stack = stack[:top]
+				err = e
+				continue
+			}
+			ty = tyCur
+			break
 		}
-		b.Skip(int(l))
-	case MAP:
-		err := b.skipFieldMap()
-		if err != nil {
-			return err
-		}
-	case LIST:
-		err := b.skipFieldList()
-		if err != nil {
-			return err
-		}
-	case SimpleList:
-		err := b.skipFieldSimpleList()
-		if err != nil {
-			return err
-		}
-	case StructBegin:
-		err := b.SkipToStructEnd()
-		if err != nil {
-			return err
-		}
-	case StructEnd:
-	case ZeroTag:
-	default:
-		return fmt.Errorf("invalid type")
 	}
-	return nil
 }
 
 // SkipToStructEnd for skip to the StructEnd tag.
 func (b *Reader) SkipToStructEnd() error {
-	for {
-		ty, _, err := b.readHead()
-		if err != nil {
-			return err
-		}
-
-		err = b.skipField(ty)
-		if err != nil {
-			return err
-		}
-		if ty == StructEnd {
-			break
-		}
-	}
-	return nil
+	// same as skipping a struct whose StructBegin head has just been read
+	return b.skipFields(StructBegin, nil)
 }
 
 // SkipToNoCheck for skip to the none StructEnd tag.
